@@ -11,7 +11,7 @@ one() {
   if ! git -C $W apply "$(realpath seeded/$id/patch.diff)" 2>/dev/null; then echo "$id $prop patch-does-not-apply"; git -C /repo worktree remove --force $W; return; fi
   mkdir -p /tmp/seedrun_ev_$id
   VERIF_REPO=$W VERIF_SEED=0 VERIF_EVIDENCE_DIR=/tmp/seedrun_ev_$id VERIF_REPLAY_DIR=/tmp/seedrun_ev_$id timeout 1500 ./check $prop --tier quick > /tmp/seedrun_$id.log 2>&1; rc=$?
-  git -C /repo worktree remove --force $W; git -C /repo worktree prune
+  git -C /repo worktree remove --force $W     # (no `worktree prune` here: it would race with a sibling's `worktree add`)
   n=$(grep -c '^VIOLATION' /tmp/seedrun_$id.log)
   if [ $rc -eq 1 ] && [ $n -gt 0 ]; then echo "$id $prop caught violations=$n with_input=$(grep '^VIOLATION' /tmp/seedrun_$id.log | grep -vc no-failing-input-found)";
   elif [ $rc -eq 0 ]; then echo "$id $prop MISSED"; else echo "$id $prop tool-failure rc=$rc"; fi
@@ -25,4 +25,5 @@ if [ -n "$ONLY" ]; then
 else
   ls seeded | grep -v -e gitkeep -e KILL | xargs -P $P -I{} bash -c 'one {}' | sort > seeded/KILL_MATRIX.txt
 fi
+git -C /repo worktree prune
 cat seeded/KILL_MATRIX.txt | awk '{print $3}' | sort | uniq -c
